@@ -30,6 +30,16 @@ var stateIdx int
 const callBudget = 3000
 
 func copyTree(src, dst string) {
+	type dm struct {
+		path string
+		t    time.Time
+	}
+	var dirs []dm
+	defer func() { // directory ages last: writing their entries touches them
+		for i := len(dirs) - 1; i >= 0; i-- {
+			os.Chtimes(dirs[i].path, dirs[i].t, dirs[i].t)
+		}
+	}()
 	filepath.Walk(src, func(p string, info os.FileInfo, err error) error {
 		if err != nil {
 			return nil
@@ -38,6 +48,9 @@ func copyTree(src, dst string) {
 		q := filepath.Join(dst, r)
 		if info.IsDir() {
 			os.MkdirAll(q, 0777)
+			if strings.HasSuffix(q, ".lock") {
+				dirs = append(dirs, dm{q, info.ModTime()})
+			}
 			return nil
 		}
 		data, _ := os.ReadFile(p)
